@@ -8,6 +8,7 @@ import (
 	"strings"
 	"sync/atomic"
 	"syscall"
+	"verif/internal/sched"
 
 	"verif/internal/core"
 )
@@ -300,6 +301,21 @@ func runC10(env *core.Env) {
 			pres = append(pres, fx2.Store())
 		}
 	}
+	{
+		// a hand-merged log that already contains a waits-for cycle through an epic-level dependency (the CLI refuses to
+		// build one): commands that re-check the graph may now fail late; whatever fails must still change nothing
+		l := newSynLog()
+		e1, e2 := core.IDFor(9101), core.IDFor(9102)
+		t1, t2 := core.IDFor(9103), core.IDFor(9104)
+		l.Create(SynItem{ID: e1, Epic: true, Title: "CE1"})
+		l.Create(SynItem{ID: e2, Epic: true, Title: "CE2"})
+		l.Create(SynItem{ID: t1, Title: "ct1", In: e1})
+		l.Create(SynItem{ID: t2, Title: "ct2", In: e2})
+		l.Link(t2, t1)
+		l.Link(e1, e2)
+		cyc := rich.Store.WithLog(append(append([]byte{}, rich.Store.Log()...), l.Bytes()...))
+		pres = append(pres, cyc)
+	}
 	cat := c10Catalogue(rich, env.Thorough())
 	conf := newConformer(len(cat)*len(pres)/300+1, 320)
 	type job struct {
@@ -396,8 +412,20 @@ func runC10(env *core.Env) {
 	_ = sitesFailing
 	_ = os.Stderr
 	validated := conf.run(env)
+	// lock busy and other failures caused by a concurrent writer: a command that exits non-zero must have contributed
+	// nothing to the final state (serial equivalence over the commands that exited 0), under every interleaving up to 2 preemptions
+	cf := buildConcFix(env)
+	concCov := concPhase(env, "C10", []sched.Scenario{
+		{Name: "set{title,claim}||claim", Store: cf.SA, Procs: []core.Req{core.R("", "--json", "set", cf.T1).In(`{"title":"T1","claim":"setter"}`), claimReq("a1")}},
+		{Name: "claim-id||set{state}", Store: cf.SA, Procs: []core.Req{core.R("", "--json", "claim", cf.T2, "--agent", "b"), core.R("", "--json", "set", cf.T1).In(`{"state":"blocked"}`)}},
+		{Name: "plan||claim", Store: cf.SA, Procs: []core.Req{core.R("", "--json", "plan").In(`{"title":"P","tasks":[{"title":"pa"},{"title":"pb","after":["pa"]}]}`), claimReq("a1")}},
+		{Name: "new-task{claim}||claim", Store: cf.SA, Procs: []core.Req{core.R("", "--json", "new", "task").In(`{"title":"NC","claim":"creator"}`), claimReq("a1")}},
+		{Name: "sequence-chain||set{state}", Store: cf.SA, Procs: []core.Req{core.R("", "--json", "sequence", cf.T1, cf.T2, cf.T3), core.R("", "--json", "set", cf.T2).In(`{"state":"done"}`)}},
+		{Name: "set{result,state}||prune", Store: cf.SA, Procs: []core.Req{core.R("", "--json", "set", cf.T2).In(`{"result_path":"out.txt","result_summary":"s","state":"done"}`), core.R("", "--json", "prune", "--yes")}},
+	}, func(core.Obs) string { return "" })
 	env.Finish("model_checking", map[string]interface{}{
-		"states": len(pres), "transitions": evals, "traces_validated_against_impl": validated,
+		"concurrent": concCov,
+		"states":     len(pres), "transitions": evals, "traces_validated_against_impl": validated,
 		"evaluations": evals, "distinct_nontrivial": distinct.len(),
 		"rule":       "cross product (command, field subset of {title,body,epic,state,claim,result} up to pairs + mixed triples, every value incl. poisoned ones, 10 targets incl. pruned/unknown ids, 3 input modes; all sequence pairs/triples over 8 ids; plan rejection catalogue; usage errors; every mutating command under a held flock) x pre-states; non-trivial = exits non-zero; distinct = (command family, error class)",
 		"samples":    samples.list,
